@@ -31,7 +31,7 @@ from ..cfg import explore, FactDB
 from ..rules import call_sites, node_calls, node_assigns, event_facts, settle_sites, is_none
 from ..mutate import mutate, remove_stmts, replace_expr, replace_stmt, parse_stmt, parse_expr
 from ..model import AnalysisError
-from ..x_guardflow import ClassEffects, guard_facts, has, fold_conj_partial, expand_expr
+from ..x_guardflow import ClassEffects, guard_facts, has, fold_conj_partial, expand_expr, edge_facts
 
 TECHNIQUE = "guard-dominance dataflow with write summaries, take-and-clear lint, finite-domain folding of redirect/cross-origin predicates"
 EXPLANATION = (
@@ -390,9 +390,10 @@ def completion(ck):
     ck.floor("C09.error-completes", len(rcs), 1, "_run_callback calls in _handle_exception")
     from ..cfg import canon_fact
     n_b = 0
+    hgf = guard_facts(hexc, ClassEffects(ck.repo, [(SH, CONN)]))
     for t in hexc.cfg.stmt_nodes(lambda n: n.kind == "test"):
         for kind in ("true", "false"):
-            if canon_fact(t.ast, kind == "true") == ("self.final_callback is None", False):
+            if ("self.final_callback is None", False) in edge_facts(t, kind, hgf):
                 for sid, k in hexc.cfg.succ[t.id]:
                     if k == kind:
                         n_b += 1
@@ -648,7 +649,7 @@ def redirects(ck):
                     return True
         return False
 
-    gfin = guard_facts(fin, ceff, extra_kill=pred_kill)
+    gfin = guard_facts(fin, ceff, extra_kill=pred_kill, pure_calls=("self.%s" % sfr.name,))
     for n in fin.cfg.nodes_for(fetch_call):
         ck.ob("C09.redirect-follow-table", fin, fetch_call, has(gfin[n.id], "self._should_follow_redirect()", True), "the redirected fetch is issued only when _should_follow_redirect() holds")
 
